@@ -286,8 +286,9 @@ func c08QueueTie(c *Ctx, base string) {
 // ---------------------------------------------------------------------------------------------
 
 type c08W struct {
-	dir string
-	q   *store.FileQueue
+	dir  string
+	q    *store.FileQueue
+	pend []*store.Inject // handed to the writer, not yet acknowledged
 }
 
 func (w *c08W) path() string { return filepath.Join(w.dir, "tmp.data") }
@@ -297,6 +298,7 @@ func (w *c08W) restart() (line string, recs []c08Rec) {
 	if w.q != nil {
 		w.q.Close()
 	}
+	w.pend = nil
 	var err error
 	st := Safe(func() string {
 		w.q, err = store.VerifNewDetachedQueue(w.dir)
@@ -312,7 +314,7 @@ func (w *c08W) restart() (line string, recs []c08Rec) {
 		select {
 		case op := <-w.q.SyncFileDB.WriteChan:
 			recs = append(recs, c08Rec{op.Flg, op.Key, op.Val})
-			// keep it pending: put it back is impossible without reordering; the index entry stays (nobody acknowledges)
+			w.pend = append(w.pend, op) // stays pending until drain()
 			continue
 		default:
 		}
@@ -332,9 +334,68 @@ func (w *c08W) put(r c08Rec) string {
 	if err := w.q.Put(r.Flg, r.Key, r.Val); err != nil {
 		return "err " + err.Error()
 	}
-	<-w.q.SyncFileDB.WriteChan // stays pending in the index, nobody acknowledges
+	w.pend = append(w.pend, <-w.q.SyncFileDB.WriteChan) // stays pending in the index until drain()
 	fi, _ := os.Stat(w.path())
 	return fmt.Sprintf("ok off=%d size=%d", w.q.Offset, fi.Size())
+}
+
+// drain: the writer has persisted and acknowledged everything (real afterPut -> delIndex): the index is empty
+func (w *c08W) drain() string {
+	for _, op := range w.pend {
+		w.q.VerifAfterPut(op)
+	}
+	w.pend = nil
+	return fmt.Sprintf("ok idx=%d", len(w.q.VerifIndexDump()))
+}
+
+// c08RewindTie: writes, the queue drains (index empty), more writes (emptyFile: the file must be emptied, the write
+// position goes back to 0), restart: the scan must deliver exactly the records written since the queue was idle.
+func c08RewindTie(c *Ctx, base string) {
+	nCases := 6 + c.N/8
+	for it := 0; it < nCases; it++ {
+		dir := filepath.Join(base, fmt.Sprintf("rw%d", it))
+		os.MkdirAll(dir, 0755)
+		w := &c08W{dir: dir}
+		os.WriteFile(w.path(), nil, 0644)
+		c.Op("wload -", "len 0")
+		line, _ := w.restart()
+		c.Op("wrestart", line)
+		keyN := 0
+		put := func(ki int, vlen int) c08Rec {
+			keyN++
+			r := c08Rec{4, []byte{0x30, byte(ki)}, append([]byte{byte(keyN)}, c08RandBytes(c, vlen)...)}
+			c.Op(fmt.Sprintf("wput %d:%s:%s", r.Flg, hexOrDash(r.Key), hexOrDash(r.Val)), w.put(r))
+			return r
+		}
+		rounds := 2 + c.Rnd.Intn(3)
+		var since []c08Rec
+		for rd := 0; rd < rounds; rd++ {
+			since = nil
+			// fewer (and same-shaped) records in every round: the previous round's records would line up behind them
+			n := rounds - rd + c.Rnd.Intn(2)
+			for j := 0; j < n; j++ {
+				since = append(since, put((j+rd)%3, 10+c.Rnd.Intn(150)))
+			}
+			if rd < rounds-1 {
+				c.Op("wdrain", w.drain())
+			}
+		}
+		if it%2 == 1 {
+			c.Op("wdrain", w.drain())
+			since = append([]c08Rec{}, put(1, 20)) // a single short record after the last drain
+		}
+		line, recs := w.restart()
+		c.Op("wrestart", line)
+		if c08SameRecs(recs, since) {
+			c.Count("rewind-tie:intact")
+		} else {
+			c.Count("rewind-tie:stale-redelivered")
+			c08Fail(c, "c08/stale-record-redelivered/stale-records-behind-rewound-offset", fmt.Sprintf("FileQueue: %d rounds of writes with the queue drained in between; %d record(s) were written since the queue was last idle, a restart delivers %d: records of earlier rounds lie behind the rewound write position and are redelivered AFTER the newer versions of their keys (%s)", rounds, len(since), len(recs), line[:min(len(line), 160)]),
+				map[string]interface{}{"level": "FileQueue", "rounds": rounds, "written_since_idle": len(since), "delivered": len(recs)})
+		}
+		w.q.Close()
+		os.RemoveAll(dir)
+	}
 }
 
 func c08RemnantFamily(c *Ctx, base string) {
